@@ -34,13 +34,26 @@ def pin_tpool_add_to_pool : List Step := [
   ⟨.call, "evict_from_txpool", "self.evict_from_txpool()", "", ["$7"]⟩,
   ⟨.okFinal, "", "()", "", []⟩
 ]
-theorem tpool_add_to_pool_pinned : tpool_add_to_pool.parseError = none ∧ tpool_add_to_pool.steps = pin_tpool_add_to_pool := ⟨rfl, rfl⟩
+/-- reviewed `let`s / assignments that feed a guard of `TransactionPool::add_to_pool (pool/src/transaction_pool.rs)` -/
+def pin_lets_tpool_add_to_pool : List LetRec := [
+  ⟨["$4"], "<if>", "<if>", []⟩,
+  ⟨["$5"], "tx", "$4.tx", []⟩,
+  ⟨["$6"], "is_acceptable", "self.is_acceptable($5, $2)", []⟩,
+  ⟨["$7"], "<boollit>", "false", []⟩,
+  ⟨["$7"], "<boollit>", "= true", ["(!($2) && ($6.as_ref().err() == Some(&PoolError::OverCapacity)))"]⟩,
+  ⟨["$9", "$10"], "<if>", "<if>?", []⟩,
+  ⟨["$13"], "convert_tx_v2", "self.convert_tx_v2($4, &$9, &$10)?", []⟩
+]
+theorem tpool_add_to_pool_pinned : tpool_add_to_pool.parseError = none ∧ tpool_add_to_pool.steps = pin_tpool_add_to_pool ∧ tpool_add_to_pool.lets = pin_lets_tpool_add_to_pool := ⟨rfl, rfl, rfl⟩
 
 /-- reviewed shape of `TransactionPool::add_to_stempool (pool/src/transaction_pool.rs)` -/
 def pin_tpool_add_to_stempool : List Step := [
   ⟨.tail, "add_to_pool", "self.stempool.add_to_pool($0.clone(), $2, $1)", "", []⟩
 ]
-theorem tpool_add_to_stempool_pinned : tpool_add_to_stempool.parseError = none ∧ tpool_add_to_stempool.steps = pin_tpool_add_to_stempool := ⟨rfl, rfl⟩
+/-- reviewed `let`s / assignments that feed a guard of `TransactionPool::add_to_stempool (pool/src/transaction_pool.rs)` -/
+def pin_lets_tpool_add_to_stempool : List LetRec := [
+]
+theorem tpool_add_to_stempool_pinned : tpool_add_to_stempool.parseError = none ∧ tpool_add_to_stempool.steps = pin_tpool_add_to_stempool ∧ tpool_add_to_stempool.lets = pin_lets_tpool_add_to_stempool := ⟨rfl, rfl, rfl⟩
 
 /-- reviewed shape of `TransactionPool::add_to_txpool (pool/src/transaction_pool.rs)` -/
 def pin_tpool_add_to_txpool : List Step := [
@@ -49,7 +62,10 @@ def pin_tpool_add_to_txpool : List Step := [
   ⟨.check, "reconcile", "self.stempool.reconcile($2, $1)", "", []⟩,
   ⟨.okFinal, "", "()", "", []⟩
 ]
-theorem tpool_add_to_txpool_pinned : tpool_add_to_txpool.parseError = none ∧ tpool_add_to_txpool.steps = pin_tpool_add_to_txpool := ⟨rfl, rfl⟩
+/-- reviewed `let`s / assignments that feed a guard of `TransactionPool::add_to_txpool (pool/src/transaction_pool.rs)` -/
+def pin_lets_tpool_add_to_txpool : List LetRec := [
+]
+theorem tpool_add_to_txpool_pinned : tpool_add_to_txpool.parseError = none ∧ tpool_add_to_txpool.steps = pin_tpool_add_to_txpool ∧ tpool_add_to_txpool.lets = pin_lets_tpool_add_to_txpool := ⟨rfl, rfl, rfl⟩
 
 /-- reviewed shape of `TransactionPool::verify_kernel_variants (pool/src/transaction_pool.rs)` -/
 def pin_tpool_verify_kernel_variants : List Step := [
@@ -58,7 +74,10 @@ def pin_tpool_verify_kernel_variants : List Step := [
   ⟨.fail, "NRDKernelPreHF3", "PoolError::NRDKernelPreHF3", "", ["$0.kernels().iter().any(|..|{..})", "($1.version < HeaderVersion(4))"]⟩,
   ⟨.okFinal, "", "()", "", []⟩
 ]
-theorem tpool_verify_kernel_variants_pinned : tpool_verify_kernel_variants.parseError = none ∧ tpool_verify_kernel_variants.steps = pin_tpool_verify_kernel_variants := ⟨rfl, rfl⟩
+/-- reviewed `let`s / assignments that feed a guard of `TransactionPool::verify_kernel_variants (pool/src/transaction_pool.rs)` -/
+def pin_lets_tpool_verify_kernel_variants : List LetRec := [
+]
+theorem tpool_verify_kernel_variants_pinned : tpool_verify_kernel_variants.parseError = none ∧ tpool_verify_kernel_variants.steps = pin_tpool_verify_kernel_variants ∧ tpool_verify_kernel_variants.lets = pin_lets_tpool_verify_kernel_variants := ⟨rfl, rfl, rfl⟩
 
 /-- reviewed shape of `TransactionPool::reconcile_block (pool/src/transaction_pool.rs)` -/
 def pin_tpool_reconcile_block : List Step := [
@@ -69,13 +88,19 @@ def pin_tpool_reconcile_block : List Step := [
   ⟨.check, "reconcile", "self.stempool.reconcile($1, &$0.header)", "", []⟩,
   ⟨.okFinal, "", "()", "", []⟩
 ]
-theorem tpool_reconcile_block_pinned : tpool_reconcile_block.parseError = none ∧ tpool_reconcile_block.steps = pin_tpool_reconcile_block := ⟨rfl, rfl⟩
+/-- reviewed `let`s / assignments that feed a guard of `TransactionPool::reconcile_block (pool/src/transaction_pool.rs)` -/
+def pin_lets_tpool_reconcile_block : List LetRec := [
+]
+theorem tpool_reconcile_block_pinned : tpool_reconcile_block.parseError = none ∧ tpool_reconcile_block.steps = pin_tpool_reconcile_block ∧ tpool_reconcile_block.lets = pin_lets_tpool_reconcile_block := ⟨rfl, rfl, rfl⟩
 
 /-- reviewed shape of `TransactionPool::evict_from_txpool (pool/src/transaction_pool.rs)` -/
 def pin_tpool_evict_from_txpool : List Step := [
   ⟨.tail, "evict_transaction", "self.txpool.evict_transaction()", "", []⟩
 ]
-theorem tpool_evict_from_txpool_pinned : tpool_evict_from_txpool.parseError = none ∧ tpool_evict_from_txpool.steps = pin_tpool_evict_from_txpool := ⟨rfl, rfl⟩
+/-- reviewed `let`s / assignments that feed a guard of `TransactionPool::evict_from_txpool (pool/src/transaction_pool.rs)` -/
+def pin_lets_tpool_evict_from_txpool : List LetRec := [
+]
+theorem tpool_evict_from_txpool_pinned : tpool_evict_from_txpool.parseError = none ∧ tpool_evict_from_txpool.steps = pin_tpool_evict_from_txpool ∧ tpool_evict_from_txpool.lets = pin_lets_tpool_evict_from_txpool := ⟨rfl, rfl, rfl⟩
 
 /-- reviewed shape of `Pool::add_to_pool (pool/src/pool.rs)` -/
 def pin_pool_add_to_pool : List Step := [
@@ -88,7 +113,11 @@ def pin_pool_add_to_pool : List Step := [
   ⟨.call, "push", "self.entries.push($0)", "", []⟩,
   ⟨.okFinal, "", "()", "", []⟩
 ]
-theorem pool_add_to_pool_pinned : pool_add_to_pool.parseError = none ∧ pool_add_to_pool.steps = pin_pool_add_to_pool := ⟨rfl, rfl⟩
+/-- reviewed `let`s / assignments that feed a guard of `Pool::add_to_pool (pool/src/pool.rs)` -/
+def pin_lets_pool_add_to_pool : List LetRec := [
+  ⟨["$3"], "all_transactions", "self.all_transactions()", []⟩
+]
+theorem pool_add_to_pool_pinned : pool_add_to_pool.parseError = none ∧ pool_add_to_pool.steps = pin_pool_add_to_pool ∧ pool_add_to_pool.lets = pin_lets_pool_add_to_pool := ⟨rfl, rfl, rfl⟩
 
 /-- reviewed shape of `Pool::validate_raw_tx (pool/src/pool.rs)` -/
 def pin_pool_validate_raw_tx : List Step := [
@@ -97,7 +126,10 @@ def pin_pool_validate_raw_tx : List Step := [
   ⟨.check, "apply_tx_to_block_sums", "self.apply_tx_to_block_sums($0, $1)", "", []⟩,
   ⟨.okFinal, "", "$3", "", []⟩
 ]
-theorem pool_validate_raw_tx_pinned : pool_validate_raw_tx.parseError = none ∧ pool_validate_raw_tx.steps = pin_pool_validate_raw_tx := ⟨rfl, rfl⟩
+/-- reviewed `let`s / assignments that feed a guard of `Pool::validate_raw_tx (pool/src/pool.rs)` -/
+def pin_lets_pool_validate_raw_tx : List LetRec := [
+]
+theorem pool_validate_raw_tx_pinned : pool_validate_raw_tx.parseError = none ∧ pool_validate_raw_tx.steps = pin_pool_validate_raw_tx ∧ pool_validate_raw_tx.lets = pin_lets_pool_validate_raw_tx := ⟨rfl, rfl, rfl⟩
 
 /-- reviewed shape of `Pool::validate_raw_txs (pool/src/pool.rs)` -/
 def pin_pool_validate_raw_txs : List Step := [
@@ -107,7 +139,11 @@ def pin_pool_validate_raw_txs : List Step := [
   ⟨.call, "push", "$4.push($5.clone())", "", ["for $0", "self.validate_raw_tx(&$9, $2, $3).is_ok()"]⟩,
   ⟨.okFinal, "", "$4", "", []⟩
 ]
-theorem pool_validate_raw_txs_pinned : pool_validate_raw_txs.parseError = none ∧ pool_validate_raw_txs.steps = pin_pool_validate_raw_txs := ⟨rfl, rfl⟩
+/-- reviewed `let`s / assignments that feed a guard of `Pool::validate_raw_txs (pool/src/pool.rs)` -/
+def pin_lets_pool_validate_raw_txs : List LetRec := [
+  ⟨["$9"], "<match>", "<match>", ["for $0"]⟩
+]
+theorem pool_validate_raw_txs_pinned : pool_validate_raw_txs.parseError = none ∧ pool_validate_raw_txs.steps = pin_pool_validate_raw_txs ∧ pool_validate_raw_txs.lets = pin_lets_pool_validate_raw_txs := ⟨rfl, rfl, rfl⟩
 
 /-- reviewed shape of `Pool::reconcile (pool/src/pool.rs)` -/
 def pin_pool_reconcile : List Step := [
@@ -115,13 +151,22 @@ def pin_pool_reconcile : List Step := [
   ⟨.call, "add_to_pool", "self.add_to_pool($3, $0.clone(), $1)", "", ["for $2"]⟩,
   ⟨.okFinal, "", "()", "", []⟩
 ]
-theorem pool_reconcile_pinned : pool_reconcile.parseError = none ∧ pool_reconcile.steps = pin_pool_reconcile := ⟨rfl, rfl⟩
+/-- reviewed `let`s / assignments that feed a guard of `Pool::reconcile (pool/src/pool.rs)` -/
+def pin_lets_pool_reconcile : List LetRec := [
+  ⟨["$2"], "entries", "self.entries.clone()", []⟩
+]
+theorem pool_reconcile_pinned : pool_reconcile.parseError = none ∧ pool_reconcile.steps = pin_pool_reconcile ∧ pool_reconcile.lets = pin_lets_pool_reconcile := ⟨rfl, rfl, rfl⟩
 
 /-- reviewed shape of `Pool::find_matching_transactions (pool/src/pool.rs)` -/
 def pin_pool_find_matching_transactions : List Step := [
   ⟨.call, "push", "$1.push($3.tx.clone())", "", ["for &self.entries", "$4.is_subset(&$2)"]⟩,
   ⟨.tail, "found_txs", "$1", "", []⟩
 ]
-theorem pool_find_matching_transactions_pinned : pool_find_matching_transactions.parseError = none ∧ pool_find_matching_transactions.steps = pin_pool_find_matching_transactions := ⟨rfl, rfl⟩
+/-- reviewed `let`s / assignments that feed a guard of `Pool::find_matching_transactions (pool/src/pool.rs)` -/
+def pin_lets_pool_find_matching_transactions : List LetRec := [
+  ⟨["$2"], "kernels", "$0.iter().collect()", []⟩,
+  ⟨["$4"], "kernels", "$3.tx.kernels().iter().collect()", ["for &self.entries"]⟩
+]
+theorem pool_find_matching_transactions_pinned : pool_find_matching_transactions.parseError = none ∧ pool_find_matching_transactions.steps = pin_pool_find_matching_transactions ∧ pool_find_matching_transactions.lets = pin_lets_pool_find_matching_transactions := ⟨rfl, rfl, rfl⟩
 
 end GV.Props.XlateShapePoolPins
